@@ -386,7 +386,7 @@ func run(r *core.Run) int {
 		}
 		add(sc)
 	}
-	core.Parallel(len(jobs), func(i int) {
+	r.Parallel(len(jobs), func(i int) {
 		sc := jobs[i].sc
 		out := sc.Run()
 		judge(r, sc, out)
